@@ -162,10 +162,15 @@ def malformed(chk, rng, found):
                 bads.append(("one row more", A.to_tensor(good + [[F(1), F(1)]], dt)))
                 bads.append(("three rows more", A.to_tensor(good + [[F(1), F(1)], [F(0), F(2)], [F(3), F(-1)]], dt)))
                 bads.append(("one row only", A.to_tensor(good[:1], dt)))
+                # the row-count rules hold for EVERY matrix, the all-zero one included
+                bads.append(("all-zero, one row less", torch.zeros(2, 2, dtype=A.DT[dt])))
+                bads.append(("all-zero, one row more", torch.zeros(4, 3, dtype=A.DT[dt])))
             if name == "TrimmedMean":
                 bads.append(("m < 2b+1", A.to_tensor(good[:2], dt)))
+                bads.append(("all-zero, m < 2b+1", torch.zeros(2, 3, dtype=A.DT[dt])))
             if name == "Krum":
                 bads.append(("m < f+3", A.to_tensor(good[:2], dt)))
+                bads.append(("all-zero, m < f+3", torch.zeros(2, 3, dtype=A.DT[dt])))
         for label, t in bads:
             try:
                 A.make_aggregator(name, p, "f32" if t.dtype == torch.float32 else "f64")(t)
